@@ -20,7 +20,8 @@
 (*   StartHandshake     u_conn.go      handshakeContext: the internal      *)
 (*                                     BuildHandshakeState (hook H1 logs   *)
 (*                                     Hello.Raw right after it)           *)
-(*   SendCH1 / SendCH2  conn.go        writeHandshakeRecord of the hello;  *)
+(*   SendCH1 / SendCH2  conn.go        writeHandshakeRecord of the hello   *)
+(*                                     (hook H2 sees the message);         *)
 (*                      handshake_client_tls13.go processHelloRetryRequest *)
 (*                                     (MarshalClientHelloNoECH,           *)
 (*                                      hs.hello.original = Hello.Raw)     *)
@@ -55,9 +56,10 @@ VARIABLES cls,      \* "custom" (HelloCustom + ApplyPreset by the caller) or any
           raw,      \* HandshakeState.Hello.Raw
           rebuilt,  \* Hello.Raw right after the internal BuildHandshakeState of Handshake (hook H1)
           wire,     \* ClientHellos put on the wire, in order
+          sent,     \* Hello.Raw at the moment each of them was handed to the record layer
           hrrSeen,  \* a HelloRetryRequest arrived
           phase     \* "edit" | "start" | "ch1" | "hrr" | "ch2" | "sh" | "done" | "failed"
-bvars == <<cls, status, applied, omitSNI, pending, raw, rebuilt, wire, hrrSeen, phase>>
+bvars == <<cls, status, applied, omitSNI, pending, raw, rebuilt, wire, sent, hrrSeen, phase>>
 
 NoSer == [id |-> "", img |-> BadHello]
 S(id, img) == [id |-> id, img |-> img]
@@ -92,7 +94,7 @@ Broken(img, p) == {c \in p : ~Holds(c, img, p)}
 
 \* ------------------------------------------------------------------ mechanism
 Init0(c) == /\ cls = c /\ status = "NotBuilt" /\ applied = FALSE /\ omitSNI = FALSE /\ pending = {}
-            /\ raw = NoSer /\ rebuilt = NoSer /\ wire = <<>> /\ hrrSeen = FALSE /\ phase = "edit"
+            /\ raw = NoSer /\ rebuilt = NoSer /\ wire = <<>> /\ sent = <<>> /\ hrrSeen = FALSE /\ phase = "edit"
 
 \* edits of the hello are kept from now on
 Protected == status = "BuildByUtls" \/ (cls = "custom" /\ applied)
@@ -105,7 +107,7 @@ Kept(p) == {c \in p : Survives(c)}
 ApplyPreset ==
   /\ phase = "edit"
   /\ applied' = TRUE /\ pending' = Kept(pending)
-  /\ UNCHANGED <<cls, status, omitSNI, raw, rebuilt, wire, hrrSeen, phase>>
+  /\ UNCHANGED <<cls, status, omitSNI, raw, rebuilt, wire, sent, hrrSeen, phase>>
 
 \* buildHandshakeState(loadSession); ser is the serialisation MarshalClientHello leaves in Hello.Raw
 BuildCore(ls, ser) ==
@@ -116,13 +118,13 @@ BuildCore(ls, ser) ==
 Build(ls, ser) ==
   /\ phase = "edit"
   /\ BuildCore(ls, ser)
-  /\ UNCHANGED <<cls, omitSNI, rebuilt, wire, hrrSeen, phase>>
+  /\ UNCHANGED <<cls, omitSNI, rebuilt, wire, sent, hrrSeen, phase>>
 
 \* one documented edit; always: the edit does not live in Hello / Extensions (SetSNI, RemoveSNIExtension)
 Edit(c, always) ==
   /\ phase = "edit"
   /\ pending' = IF Protected \/ always THEN Add(pending, c) ELSE pending
-  /\ UNCHANGED <<cls, status, applied, raw, rebuilt, wire, hrrSeen, phase>>
+  /\ UNCHANGED <<cls, status, applied, raw, rebuilt, wire, sent, hrrSeen, phase>>
 SetClientRandom(r) == Edit(CRandom(r), FALSE) /\ UNCHANGED omitSNI
 SetSNI(norm)       == Edit(CSNI(norm), TRUE) /\ UNCHANGED omitSNI
 RemoveSNI          == Edit(CNoSNI, TRUE) /\ omitSNI' = TRUE
@@ -131,7 +133,7 @@ EditSessionId(s)   == Edit(CSessionId(s), FALSE) /\ UNCHANGED omitSNI
 \* a GenericExtension inserted at the head of UConn.Extensions
 ExtInsert(t, body) == /\ phase = "edit"
                       /\ pending' = IF Protected THEN Add(Add(pending, CExt(t, body)), CFront(<<t>> \o Front(pending))) ELSE pending
-                      /\ UNCHANGED <<cls, status, applied, omitSNI, raw, rebuilt, wire, hrrSeen, phase>>
+                      /\ UNCHANGED <<cls, status, applied, omitSNI, raw, rebuilt, wire, sent, hrrSeen, phase>>
 ExtRemove(t)       == Edit(CNoExt(t), FALSE) /\ UNCHANGED omitSNI
 \* the protocol list of the ALPN extension object replaced (found: the extension list has one)
 ExtALPN(body, found) == IF found THEN Edit(CExt(16, body), FALSE) /\ UNCHANGED omitSNI ELSE UNCHANGED bvars
@@ -141,39 +143,40 @@ StartHandshake(ser) ==
   /\ phase = "edit"
   /\ BuildCore(TRUE, ser)
   /\ rebuilt' = ser /\ phase' = "start"
-  /\ UNCHANGED <<cls, omitSNI, wire, hrrSeen>>
-\* the first handshake record: w is what went to the transport
-SendCH1(w) ==
+  /\ UNCHANGED <<cls, omitSNI, wire, sent, hrrSeen>>
+\* the first handshake record: w is what went to the transport, ser is Hello.Raw at that moment
+SendCH1(ser, w) ==
   /\ phase = "start"
-  /\ wire' = <<w>> /\ phase' = "ch1"
+  /\ wire' = <<w>> /\ sent' = <<ser>> /\ phase' = "ch1"
   /\ UNCHANGED <<cls, status, applied, omitSNI, pending, raw, rebuilt, hrrSeen>>
 ServerHRR ==
   /\ phase = "ch1" /\ ~hrrSeen
   /\ hrrSeen' = TRUE /\ phase' = "hrr"
-  /\ UNCHANGED <<cls, status, applied, omitSNI, pending, raw, rebuilt, wire>>
+  /\ UNCHANGED <<cls, status, applied, omitSNI, pending, raw, rebuilt, wire, sent>>
 \* processHelloRetryRequest: key share replaced, cookie echoed, MarshalClientHelloNoECH, original = Hello.Raw, written
 SendCH2(ser, w) ==
   /\ phase = "hrr"
-  /\ raw' = ser /\ wire' = Append(wire, w) /\ phase' = "ch2"
+  /\ raw' = ser /\ wire' = Append(wire, w) /\ sent' = Append(sent, ser) /\ phase' = "ch2"
   /\ UNCHANGED <<cls, status, applied, omitSNI, pending, rebuilt, hrrSeen>>
 ServerHello ==
   /\ phase \in {"ch1", "ch2"}
   /\ phase' = "sh"
-  /\ UNCHANGED <<cls, status, applied, omitSNI, pending, raw, rebuilt, wire, hrrSeen>>
+  /\ UNCHANGED <<cls, status, applied, omitSNI, pending, raw, rebuilt, wire, sent, hrrSeen>>
 \* Handshake returned: obs is Hello.Raw after the deferred copy-back
 Finish(obs) ==
   /\ phase = "sh"
   /\ raw' = obs /\ phase' = "done"
-  /\ UNCHANGED <<cls, status, applied, omitSNI, pending, rebuilt, wire, hrrSeen>>
+  /\ UNCHANGED <<cls, status, applied, omitSNI, pending, rebuilt, wire, sent, hrrSeen>>
 \* a handshake may fail for reasons that are none of C01's business (C10, C19, C20 judge them)
 Fail(obs) ==
   /\ phase \in {"edit", "start", "ch1", "hrr", "ch2", "sh"}
   /\ raw' = obs /\ phase' = "failed"
-  /\ UNCHANGED <<cls, status, applied, omitSNI, pending, rebuilt, wire, hrrSeen>>
+  /\ UNCHANGED <<cls, status, applied, omitSNI, pending, rebuilt, wire, sent, hrrSeen>>
 
 \* ------------------------------------------------------------------ the property
-\* every hello put on the wire equals Hello.Raw: the first as rebuilt at handshake start ...
-WireIsRaw == Len(wire) >= 1 => wire[1].id = rebuilt.id
+\* every hello put on the wire equals Hello.Raw at that moment, the first one Hello.Raw as rebuilt at handshake start ...
+WireIsRaw == /\ \A k \in DOMAIN wire : wire[k].id = sent[k].id
+             /\ Len(wire) >= 1 => wire[1].id = rebuilt.id
 \* ... every claimed edit is reflected in those bytes ...
 EditsVisible == phase \notin {"edit"} /\ rebuilt # NoSer => Broken(rebuilt.img, pending) = {}
 \* ... and after the handshake Hello.Raw is the last ClientHello sent (the second one after a HelloRetryRequest)
